@@ -52,7 +52,11 @@ def segment_dft(x, starts, L, w, omega, order):
         v = w * (seg - tr)
         Xr[k] = v @ c
         Xi[k] = -(v @ s)
-        S[k] = np.abs(w) @ (np.abs(seg) + np.abs(tr))
+        # magnitude of everything that enters the arithmetic of this segment: the windowed samples, the
+        # subtracted trend, and - because the trend at every n is fitted from *all* samples of the segment -
+        # the largest sample of the segment (a window zero must not hide a large sample from the budget)
+        spread = np.max(np.abs(seg)) if (order >= 0 and L > 0) else np.longdouble(0.0)
+        S[k] = np.abs(w) @ (np.abs(seg) + np.abs(tr) + spread)
     return Xr, Xi, S
 
 
